@@ -44,8 +44,20 @@ def run_one(prop_id, name, diff, with_tests=False, tier='quick'):
                                env=dict(os.environ, PYTHONDONTWRITEBYTECODE='1'))
             tests = ' tests=' + ('pass' if t.returncode == 0 else 'FAIL')
         env = dict(os.environ, VERIF_REPO=dst, VERIF_MAX_BUCKETS='2')
-        c = subprocess.run([os.path.join(VERIF, 'check'), prop_id, tier], cwd=VERIF, env=env,
-                           capture_output=True, text=True)
+        import signal
+        proc = subprocess.Popen([os.path.join(VERIF, 'check'), prop_id, tier], cwd=VERIF, env=env, stdout=subprocess.PIPE, stderr=subprocess.PIPE,
+                                text=True, start_new_session=True)
+        try:
+            out, err = proc.communicate(timeout=int(os.environ.get('VERIF_SELFTEST_TIMEOUT', '900')))
+        except subprocess.TimeoutExpired:
+            os.killpg(proc.pid, signal.SIGKILL)
+            proc.communicate()
+            return 'TIMEOUT' + tests, 'check did not finish within the self-test time limit'
+
+        class R:
+            pass
+        c = R()
+        c.returncode, c.stdout, c.stderr = proc.returncode, out, err
         viol = [l for l in c.stdout.splitlines() if l.startswith('VIOLATION ')]
         if c.returncode == 1 and viol:
             b = [l.strip() for l in c.stdout.splitlines() if l.strip().startswith('bucket=')]
